@@ -76,3 +76,32 @@ Proof. exact (C11_inverse 4 ex_inv eq_refl ex_inv_sorted ex_inv_no_touch ex_inv_
 Print Assumptions C11_untouched_in_mixed.
 Print Assumptions C11_untouched_unique_text.
 Print Assumptions C11_untouched_zero_length.
+
+(* ---- second audit: N13 (the hypothesis st < en of C11_inverse) and N10 (int64) ---- *)
+From Astisub Require Import Kit.Int64 Proofs.Ops64Proofs Proofs.InverseAnyProofs.
+(* C11_inverse asked every cue to have positive length, which the property text does not.  The hypothesis is not
+   needed: a cue of zero or negative length contains no multiple of f strictly inside, is not cut, and absorbs nothing
+   (Proofs/InverseAnyProofs.v; the model was first searched exhaustively - lists of up to 3 cues with start, end on 0..3
+   in any relation, two texts, f in 1..3, and up to 2 cues on 0..5, f in 1..4 - without a counter-example). *)
+Theorem C11_inverse_any : forall f l, 0 < f -> sorted l -> no_touch l ->
+  map proj (unfragment (fragment f l)) = map proj l.
+Proof. exact unfragment_fragment_any. Qed.
+Example C11_inverse_any_example :
+  sorted ex_inv_any /\ no_touch ex_inv_any /\ ~ Forall (fun x => st x < en x) ex_inv_any /\
+  map (fun x => (st x, en x)) (fragment 4 ex_inv_any) = [(0,4); (3,3); (4,8); (4,4); (8,10); (9,6); (12,12)] /\
+  map proj (unfragment (fragment 4 ex_inv_any)) = map proj ex_inv_any.
+Proof.
+  destruct ex_inv_any_hyps as (A & B & C). destruct ex_inv_any_roundtrip as (D & E).
+  split; [exact A | split; [exact B | split; [exact C | split; [exact D | exact E]]]].
+Qed.
+(* int64: Unfragment (and the Order it starts with) only compares and copies times - there is no arithmetic to wrap, the
+   model of Model/Ops.v IS the int64 model.  What there is to say: whatever set of values the input times are taken
+   from (Q := the int64 range), the output times are in it. *)
+Theorem C11_int64 : forall l, Forall times64 l -> Forall times64 (unfragment l).
+Proof. exact (unfragment_closed in_i64). Qed.
+Theorem C11_times_closed : forall (Q : Z -> Prop) l,
+  Forall (fun x => Q (st x) /\ Q (en x)) l -> Forall (fun x => Q (st x) /\ Q (en x)) (unfragment l).
+Proof. exact unfragment_closed. Qed.
+Print Assumptions C11_inverse_any.
+Print Assumptions C11_int64.
+Print Assumptions C11_times_closed.
